@@ -1741,9 +1741,11 @@ class Alias(ObjectAliasMixin):
                 resolved.resolve_target()
             except CyclicAliasError as error:
                 raise CyclicAliasError([self.target_path, *error.chain]) from error
-        self._target = resolved
         if self.parent is not None:
-            self._target.aliases[self.path] = self  # type: ignore[union-attr]
+            # When the resolved object is itself an alias, its aliases are its final target's:
+            # fetching them can fail (broken or cyclic chain), so do it before touching our target.
+            resolved.aliases[self.path] = self
+        self._target = resolved
 
     def _update_target_aliases(self) -> None:
         with suppress(AttributeError, AliasResolutionError, CyclicAliasError):
